@@ -141,9 +141,10 @@ class Adapter(object):
 
   def step(self, a, args):
     if a == "Offer":
-      st = [[x["k"], x["v"]] for x in args["st"]]
+      st = F.expand(args)
       frame, lay = F.build(st, args["plen"], args["pad"])
-      offs = [x["off"] for x in lay] + [lay[-1]["off"] + lay[-1]["hlen"]]
+      npre = len(args["st"])          # the spec logs the offsets of the explicit prefix
+      offs = [x["off"] for x in lay[:npre]] + [lay[npre - 1]["off"] + lay[npre - 1]["hlen"]]
       if len(frame) != args["total"] or offs != list(args["offs"]):
         raise Machinery("C15: byte builder and PktGrammarLib disagree on the layout of %s: %s vs %s"
                         % (st, offs, args["offs"]))
@@ -193,7 +194,7 @@ class Adapter(object):
     a = st["a"]
     sig = {"action": a}
     A = self.args or {}
-    stack = A.get("st", [])
+    stack = [{"k": k, "v": v} for k, v in F.expand(A)] if A else []
     if a in ("Offer", "Print", "Dump", "Repack"):
       sig["observed"] = "raise"
       sig["exc"] = obs.get("raised", "?") if isinstance(obs, dict) else "?"
